@@ -87,6 +87,48 @@ def make_engine(np, torch, pe):
     return Stub
 
 
+def constructed_engine_check():
+    """an engine built by its real constructor from an OCR json (charset with a symbol that two output classes share, e.g. two
+    glyph variants written 's') around a TorchScript checkpoint that returns scripted scores: class k is symbol k of the json
+    list, whatever the symbols are"""
+    core.setup_repo_path()
+    import json, os, shutil, tempfile
+    import numpy as np
+    import torch
+    from pero_ocr.ocr_engine import pytorch_ocr_engine as pe
+    bad = []
+    d = tempfile.mkdtemp(prefix='vf_c04.', dir='/var/tmp')
+    try:
+        for charset in (['a', 'b', 'c', 'd'], ['s', 'a', 's', 'b'], ['x', 'x', 'y', ' ']):
+            C = len(charset) + 1
+            paths = [(0, 0, C - 1, 2, 2, 3, C - 1, 1), (2, C - 1, 2, 3, 3, 1, 0, C - 1), (C - 1,) * 8, (3, 2, 1, 0, 0, 1, 2, 3)]
+            sc = np.full((len(paths), C, 8), -4.0, dtype=np.float32)
+            for n, p_ in enumerate(paths):
+                for t, c in enumerate(p_):
+                    sc[n, c, t] = 4.0
+
+            class Net(torch.nn.Module):
+                def __init__(self, out):
+                    super().__init__()
+                    self.register_buffer('out', torch.tensor(out))
+
+                def forward(self, x):
+                    return self.out[:x.shape[0]]
+            torch.jit.script(Net(sc)).save(os.path.join(d, 'net.pt.cpu'))
+            with open(os.path.join(d, 'ocr.json'), 'w') as f:
+                json.dump({'line_px_height': 4, 'line_vertical_scale': 1, 'checkpoint': 'net.pt', 'characters': charset, 'net_name': 'stub'}, f)
+            engine = pe.PytorchEngineLineOCR(os.path.join(d, 'ocr.json'), torch.device('cpu'))
+            got = list(engine.run_ocr(np.zeros((len(paths), 4, 32, 3), dtype=np.uint8))[0])
+            want = [''.join(charset[c] for c in S.collapse(p_, C - 1)) for p_ in paths]
+            if got != want:
+                bad.append(('engine-run_ocr-is-collapse', 'engine constructed from a json with characters %r: run_ocr %r, collapse of the arg-max paths through that table %r' % (charset, got, want)))
+            if list(engine.characters)[:len(charset)] != charset:
+                bad.append(('engine-run_ocr-is-collapse', 'engine constructed from a json with characters %r has the table %r' % (charset, list(engine.characters))))
+    finally:
+        shutil.rmtree(d, ignore_errors=True)
+    return 3, bad
+
+
 def _chunk(args):
     cases = args
     core.setup_repo_path()
@@ -176,6 +218,14 @@ def run(ctx):
                     rule='every arg-max path / batch of the domain; non-trivial = a path with at least two different symbols',
                     clause='greedy = collapse(argmax) for both decoders and the engine; decoders agree; per batch row')
     bounded.close()
+    try:
+        n_, bad_ = constructed_engine_check()
+    except Exception as e:
+        n_, bad_ = 3, [('no-exception', 'constructing an engine from a json raised %r' % (e,))]
+    ctx.add_bounded('constructed-engine', 'PytorchEngineLineOCR built by its constructor from an OCR json (3 charsets, two of them with a symbol shared by two output classes) around a TorchScript '
+                    'checkpoint returning scripted scores: 4 lines each', n_, n_, False, [{'characters': ['s', 'a', 's', 'b']}],
+                    [Failure(sig('rt', 'greedy', c_), d_, function='PytorchEngineLineOCR.__init__ / run_ocr', input={'constructed_engine': True}, observed=d_, clause=c_) for c_, d_ in bad_[:1]],
+                    rule='fixed cases', clause='class k is symbol k of the configured character table')
     ctx.trusted += ['A3: numpy.argmax / torch.argmax return the first maximiser', 'the 2-D branch of greedy_decode_ctc is not covered (the property quantifies over N x C x T)']
     if thorough:
         selftest.run(ctx, MUTANTS)
@@ -188,6 +238,12 @@ def replay(entry):
     from pero_ocr.ocr_engine import pytorch_ocr_engine as pe
     from pero_ocr.decoding import decoders as dec_mod
     inp = entry['input']
+    if inp.get('constructed_engine'):
+        n_, bad = constructed_engine_check()
+        for b in bad:
+            print('REPLAY-FAIL', b)
+        print('replay: %d problem(s) with engines constructed from a json' % len(bad))
+        return 1 if bad else 0
     C = inp['classes']
     chars = ['a', ' ', 'c', 'd'][:C - 1] + ['​']
     bad = check_batch(np, torch, pe, dec_mod, make_engine(np, torch, pe)(chars), [tuple(p) for p in inp['argmax_paths']], C, inp['style'])
